@@ -30,7 +30,7 @@ RULE = (
     "enumerates 4 sides x 3 sigmas x singleton positions x sizes. Distinct = sha1 of the case JSON."
 )
 ASSUMPTIONS = [
-    "tolerance 1e-9 (f64) / 1e-5 (f32) times the largest magnitude among designs and paddings",
+    "tolerance 1e-9 (f64) / 5e-5 (f32; a 19x19 float32 kernel sum has a worst-case error of ~2e-5) times the largest magnitude among designs and paddings",
     "'padding mirrored accordingly' = low/high arrays of the mirrored axis swapped, arrays of the other axis reversed",
     "'matching padding' for the constant claim = every supplied padding array equals the constant",
     "the side check is not in the property sentence itself; it reads the field documentation (padding_low_axis0 = "
@@ -165,7 +165,7 @@ def body(ctx, case):
     supplied = [p.astype(np.float64) for p in pads if p is not None]
     allvals = np.concatenate([a2.astype(np.float64).ravel()] + [p.ravel() for p in supplied])
     scale = max(float(np.abs(allvals).max()), float(np.abs(b2).max()), abs(c), 1.0)
-    tol = ctx.tol(1e-9, 1e-5)
+    tol = ctx.tol(1e-9, 5e-5)
 
     ctx.classify(f"sigma={sigma}", f"vaxis={va}", "pads=" + "".join("1" if f else "0" for f in flags),
                  "dist=" + case["dist"], "mirror=" + case["mirror"],
@@ -232,7 +232,7 @@ def side_body(ctx, case):
     far = pull.take(-1 if side % 2 == 0 else 0, axis=axis)
     ctx.classify(PADS[side], f"sigma={sigma}", f"vaxis={va}")
     ctx.nontrivial(True)
-    tol = ctx.tol(1e-9, 1e-5)
+    tol = ctx.tol(1e-9, 5e-5)
     ctx.check(pull.min() >= -tol and pull.max() <= 1 + tol, f"{PADS[side]}: output outside [design, padding]",
               observed=[float(pull.min()), float(pull.max())], expected=[0.0, 1.0], tolerance=tol)
     ctx.check(near.min() >= 0.1, f"{PADS[side]}={c} hardly reaches the row/column next to it (design {a}, "
